@@ -10,6 +10,8 @@ reload / endpoints-only steps under NGINX Plus.
 import NGF.Proofs.Resolver
 import NGF.Proofs.ResolverPlus
 import NGF.Generated.ResolverFacts
+import NGF.Props.C13Handler
+import NGF.Proofs.PipelineEndpoints
 
 namespace NGF.Resolver
 
@@ -539,4 +541,217 @@ theorem handler_source_as_modelled :
       ["h.version++", "cfg := dataplane.BuildConfiguration(ctx, gr, h.cfg.serviceResolver, h.version)"] := by
   exact ⟨rfl, rfl, rfl, rfl, rfl, rfl, rfl⟩
 
+/-! ## 6. Under faults (model and theorems: `Props/C13Handler.lean`): the judge accepts what a quiet batch leaves -/
+
+/-- OSS: after ANY history, on a batch the handler records no error for, the judge of the property (`judgeServers`,
+run by the driver on the REAL views of the `faults` stream) accepts what NGINX holds for every http upstream of the
+batch's configuration — so a `fail` of that judge on a real quiet batch is a divergence from the proved behaviour. -/
+theorem quiet_batch_judge_accepts_oss (s0 : HState) (pre : List HOp) (o : HOp) (hc : o.conf.WF)
+    (hq : quiet (stepH false (runH false s0 pre) o) = true) (u : Up) (hu : u ∈ o.conf.http)
+    (hnd : (u.eps.map serverAddress).Nodup) :
+    judgeServers u.eps ((stepH false (runH false s0 pre) o).1.ngx.api.http.servers u.name) = [] := by
+  have hspec := oss_batch_spec (runH false s0 pre) o
+  by_cases hn : o.faults.noReload = true
+  · rw [hspec] at hq; simp [hn, quiet] at hq
+  · rw [hspec]
+    simp only [hn, Bool.false_eq_true, if_false]
+    rw [loadOss_http hc hu]
+    have : heldHttpExpected false u = configServers (createUpstream false u) := by
+      simp [configServers, createUpstream, heldHttpExpected]
+    rw [this]
+    exact oss_judge_accepts u hnd
+
+example :
+    let c : Conf := ⟨[⟨"ns_svc_80", [⟨"10.0.0.2", 8080, false⟩]⟩], []⟩
+    let r := stepH false (runH false HState.init [⟨.cluster, c, ⟨false, true, false, [], []⟩⟩]) ⟨.endpoints, c, Faults.none⟩
+    quiet r = true ∧ c.WF ∧ r.1.ngx.api.http.servers "ns_svc_80" = ["10.0.0.2:8080"] := by
+  refine ⟨by decide, ⟨by decide, by decide⟩, by decide⟩
+
 end NGF.Resolver
+
+/-! ## 7. EndpointSlices INSIDE the pipeline model (`Model/PipelineEndpoints.lean`)
+
+`ScenarioE` = the cluster of `PipelineRefs.ScenarioR` (C06: Gateways, HTTPRoutes with backendRefs as written, Services,
+ReferenceGrants) + the Services' port entries + the EndpointSlices. `genR c.base = Pipeline.gen (resolve c.base)` is the
+abstract server/location part of http.conf (C02/C06), `upstreamsOf c` the `Configuration.Upstreams` that `buildUpstreams`
+builds from the SAME cluster with the resolver of §1, `httpUpstreams c` its `upstream` blocks. All statements are for ALL
+clusters `c`. Helper lemmas: `NGF.Proofs.PipelineEndpoints`. -/
+
+namespace NGF.PipelineEndpoints
+open NGF.Pipeline NGF.PipelineRefs
+open NGF.RefGrant (BackendRef GBackendRef Grant)
+open NGF.Resolver (Slice SvcPort Up NgxUpstream InSpec)
+
+/-- **proxied_upstream_is_defined.** Every upstream name that a location of `gen (resolve c)` proxies to — directly or
+with any split_clients share — other than `invalid-backend-ref` is the name of EXACTLY ONE element of `upstreamsOf c`
+(so NGINX never sees a `proxy_pass` to an undefined upstream, nor a duplicate `upstream` block). -/
+theorem proxied_upstream_is_defined (c : ScenarioE) (t : Str) (share : Nat)
+    (ht : (t, share) ∈ confTargets (genR c.base)) (hne : t ≠ invalidBackendRef) :
+    ∃ u ∈ upstreamsOf c, u.name.toList = t ∧ ∀ u' ∈ upstreamsOf c, u'.name.toList = t → u' = u := by
+  obtain ⟨b, hb, hbt⟩ := target_has_backend ht hne
+  obtain ⟨u, hu, hn⟩ := List.mem_map.mp (name_mem_upstreamsOf hb)
+  refine ⟨u, hu, by rw [hn]; exact hbt, ?_⟩
+  intro u' hu' hn'
+  apply unique_by_name (nodup_upstreamsOf c) hu' hu
+  apply String.toList_inj.1
+  rw [hn', hn]; exact hbt.symm
+
+/-- the names of `upstreamsOf c` are pairwise different, and none is `invalid-backend-ref`: together with the appended
+`invalid-backend-ref` block, `httpUpstreams c` defines every name once -/
+theorem upstream_blocks_distinct (c : ScenarioE) :
+    ((httpUpstreams c).map (·.name)).Nodup := by
+  have hmap : (httpUpstreams c).map (·.name) = (upstreamsOf c).map (·.name) ++ ["invalid-backend-ref"] := by
+    simp [httpUpstreams, invalidBackendRefUpstream, Resolver.createUpstream, List.map_map, Function.comp_def]
+  rw [hmap]
+  refine List.nodup_append.mpr ⟨nodup_upstreamsOf c, by simp, ?_⟩
+  intro a ha b hb' hab
+  simp only [List.mem_singleton] at hb'
+  subst hb'
+  obtain ⟨u, hu, hn⟩ := List.mem_map.mp ha
+  obtain ⟨b, hb, rfl⟩ := mem_upstreamsOf hu
+  have hv := (backends_provenance hb).1
+  have h1 : (RefGrant.servicePortReference b).toList = upstreamOf b.svcNs b.svcName b.port :=
+    servicePortReference_valid hv
+  have : upstreamOf b.svcNs b.svcName b.port = invalidBackendRef := by
+    rw [← h1]; show (toUp c b).name.toList = _; rw [hn, hab]; rfl
+  exact upstreamOf_ne_invalid _ _ _ this
+
+theorem servicePort_port (c : ScenarioE) (ns name : String) (port : Nat) : (servicePort c ns name port).port = port := by
+  unfold servicePort
+  cases h : c.ports.find? (fun i => i.ns == ns && i.name == name && i.sp.port == port) with
+  | none => rfl
+  | some i =>
+    have := List.find?_some h
+    simp only [Bool.and_eq_true, beq_iff_eq] at this
+    exact this.2
+
+/-- **upstream_servers_eq_spec_gen.** For every upstream of `upstreamsOf c` there is a Service port `ns/name:port`,
+referenced by a backendRef of a valid route attached to the served Gateway, whose `ServicePortReference` is the
+upstream's name, and the `server` lines of its block are exactly the declarative set of `resolve_eq_spec` for that
+Service and ServicePort (ready addresses of the Service's non-FQDN IPv4/IPv6 slices that publish the port, each with
+the port the slice publishes) — or exactly the 503 placeholder when that set is empty. -/
+theorem upstream_servers_eq_spec_gen (c : ScenarioE) (hwf : wfE c = true) (u : Up) (hu : u ∈ upstreamsOf c) :
+    ∃ ns name port, Referenced c ns name ∧ u.name.toList = upstreamOf ns name port ∧
+      (∃ svc ∈ c.base.services, svc.ns = ns ∧ svc.name = name ∧ port ∈ svc.ports) ∧
+      let sp := servicePort c ns name port
+      let servers := Resolver.configServers (Resolver.createUpstream false u)
+      ((∀ e, ¬ InSpec c.slices ns name sp [.ipv4, .ipv6] e) → servers = [Resolver.nginx503Server]) ∧
+      ((∃ e, InSpec c.slices ns name sp [.ipv4, .ipv6] e) →
+        ∀ x, x ∈ servers ↔ ∃ e, InSpec c.slices ns name sp [.ipv4, .ipv6] e ∧ x = Resolver.serverAddress e) := by
+  obtain ⟨b, hb, rfl⟩ := mem_upstreamsOf hu
+  obtain ⟨hv, g, hw, r, hr, hatt, ru, hru, refs, hact, ref, href, hns, hname, _, hf⟩ := backends_provenance hb
+  obtain ⟨_, svc, hsvc, hp⟩ := findPort_some hf
+  obtain ⟨hmem, hsns, hsname⟩ := lookupSvc_some hsvc
+  simp only [wfE, Bool.and_eq_true, List.all_eq_true, bne_iff_ne, ne_eq] at hwf
+  have hport : b.port ≠ 0 := hwf.1 svc hmem b.port hp
+  obtain ⟨hrns, hrules⟩ := hwf.2 r hr
+  have hrefs := hrules ru hru
+  rw [hact] at hrefs
+  simp only [List.all_eq_true, Bool.and_eq_true, bne_iff_ne, ne_eq] at hrefs
+  obtain ⟨hrname, hrefns⟩ := hrefs ref href
+  have hnsne : b.svcNs ≠ "" := by
+    rw [hns]; unfold RefGrant.refNs
+    cases hn : ref.ns with
+    | none => simpa using hrns
+    | some n => simp only [Option.getD_some]; intro e; exact hrefns (by rw [hn, e])
+  have hnamene : b.svcName ≠ "" := by rw [hname]; exact hrname
+  refine ⟨b.svcNs, b.svcName, b.port, ⟨g, hw, r, hr, hatt, ru, hru, refs, hact, ref, href, hns.symm, hname.symm⟩,
+    servicePortReference_valid hv, ⟨svc, hmem, by rw [hsns, hns], by rw [hsname, hname], hp⟩, ?_⟩
+  have hsp : (servicePort c b.svcNs b.svcName b.port).port ≠ 0 := by rw [servicePort_port]; exact hport
+  exact Resolver.oss_upstream_eq_spec c.slices b.svcNs b.svcName (servicePort c b.svcNs b.svcName b.port) .dual
+    (RefGrant.servicePortReference b) hsp hnamene hnsne
+
+/-- **unreferenced_service_no_upstream.** A Service that no backendRef of a valid route attached to the served Gateway
+names gets no upstream: no element of `upstreamsOf c` is built for it, and (names without `_`, DNS-1123) none carries
+the name of one of its ports. -/
+theorem unreferenced_service_no_upstream (c : ScenarioE) (ns name : String) (h : ¬ Referenced c ns name) :
+    (∀ b ∈ backends c, ¬ (b.svcNs = ns ∧ b.svcName = name)) ∧
+    (namesOK c.base = true → noUnderscore ns = true → noUnderscore name = true →
+      ∀ u ∈ upstreamsOf c, ∀ port, u.name.toList ≠ upstreamOf ns name port) := by
+  have key : ∀ b ∈ backends c, ¬ (b.svcNs = ns ∧ b.svcName = name) := by
+    rintro b hb ⟨e1, e2⟩
+    obtain ⟨_, g, hw, r, hr, hatt, ru, hru, refs, hact, ref, href, hns, hname, _, _⟩ := backends_provenance hb
+    exact h ⟨g, hw, r, hr, hatt, ru, hru, refs, hact, ref, href, by rw [← hns, e1], by rw [← hname, e2]⟩
+  refine ⟨key, ?_⟩
+  intro hok h1 h2 u hu port heq
+  obtain ⟨b, hb, rfl⟩ := mem_upstreamsOf hu
+  obtain ⟨hv, g, hw, r, hr, hatt, ru, hru, refs, hact, ref, href, hns, hname, _, _⟩ := backends_provenance hb
+  obtain ⟨hrns, hrules⟩ := namesOK_spec hok r hr
+  obtain ⟨hnm, hrefns⟩ := hrules ru hru refs hact ref href
+  have hnsok : noUnderscore b.svcNs = true := by
+    rw [hns]
+    cases hn : ref.ns with
+    | none => simpa [RefGrant.refNs, hn] using hrns
+    | some n => simpa [RefGrant.refNs, hn] using hrefns n hn
+  have hnmok : noUnderscore b.svcName = true := by rw [hname]; exact hnm
+  have : upstreamOf b.svcNs b.svcName b.port = upstreamOf ns name port := by
+    rw [← servicePortReference_valid hv]; exact heq
+  obtain ⟨e1, e2⟩ := upstreamOf_inj hnsok hnmok h1 h2 this
+  exact key b hb ⟨e1, e2⟩
+
+/-- **endpointslice_irrelevant_inert.** An EndpointSlice — wherever it is inserted into (read from right to left:
+deleted from) the cluster — that does not carry, in the Service's namespace, the service-name label of a Service
+referenced by an attached valid route does not change `upstreamsOf`: no upstream, no endpoint, no name. -/
+theorem endpointslice_irrelevant_inert (c : ScenarioE) (l1 l2 : List Slice) (s : Slice) (hs : c.slices = l1 ++ l2)
+    (h : ∀ ns name, Referenced c ns name → ¬ (s.ns = ns ∧ s.svcLabel = some name)) :
+    upstreamsOf { c with slices := l1 ++ s :: l2 } = upstreamsOf c := by
+  have hb : backends { c with slices := l1 ++ s :: l2 } = backends c := rfl
+  unfold upstreamsOf
+  rw [hb]
+  apply dedupByName_congr
+  intro b hbm
+  obtain ⟨_, g, hw, r, hr, hatt, ru, hru, refs, hact, ref, href, hns, hname, _, _⟩ := backends_provenance hbm
+  have href' : Referenced c b.svcNs b.svcName :=
+    ⟨g, hw, r, hr, hatt, ru, hru, refs, hact, ref, href, hns.symm, hname.symm⟩
+  show (⟨_, _⟩ : Up) = ⟨_, _⟩
+  congr 1
+  show Resolver.upstreamEndpoints (l1 ++ s :: l2) _ _ _ _ = Resolver.upstreamEndpoints c.slices _ _ _ _
+  rw [hs]
+  exact upstreamEndpoints_insert _ _ (h _ _ href')
+
+/-! non-vacuity and the converse witness: one Gateway, one attached route with two backendRefs (one to a Service in
+another namespace WITHOUT a grant: its share goes to invalid-backend-ref and it gets no upstream), a third Service that
+nothing references -/
+def exRef (ns : Option String) (name : String) (port : Nat) : BackendRef := ⟨none, none, ns, name, some port, none, 0⟩
+
+def exBase : ScenarioR :=
+  { cls := "nginx".toList, ctlr := "ctl".toList, classes := [⟨"nginx".toList, "ctl".toList⟩],
+    gateways := [⟨"default".toList, "gw".toList, "nginx".toList, 1, [⟨"http".toList, 80, [], true⟩]⟩],
+    routes := [{ ns := "app", name := "hr", age := 2,
+                 parents := [{ ns := "default".toList, name := "gw".toList, sectionName := none }],
+                 hostnames := ["cafe.example.com".toList],
+                 rules := [{ ms := [{ exact := false, path := "/".toList, method := [], headers := [], query := [] }],
+                             action := .forward [exRef none "web" 80, exRef (some "backend") "svc" 80] }],
+                 valid := true }],
+    services := [⟨"app", "web", [80]⟩, ⟨"backend", "svc", [80]⟩, ⟨"app", "idle", [80]⟩], grants := [] }
+
+def exSlice (ns svc : String) (addrs : List String) (ready : Option Bool) : Slice :=
+  ⟨ns, some svc, .ipv4, [⟨some "http", some 8080⟩], [⟨addrs, ready⟩]⟩
+
+def exE : ScenarioE :=
+  { base := exBase, ports := [⟨"app", "web", ⟨"http", 80, .int 8080⟩⟩],
+    slices := [exSlice "app" "web" ["10.0.0.1", "10.0.0.2"] (some true), exSlice "app" "web" ["10.0.0.3"] (some false),
+               exSlice "app" "idle" ["10.0.9.9"] (some true)] }
+
+#guard wfE exE && namesOK exE.base
+#guard confTargets (genR exE.base) == [("app_web_80".toList, 5000), (invalidBackendRef, 5000)]
+#guard upstreamsOf exE == [⟨"app_web_80", [⟨"10.0.0.1", 8080, false⟩, ⟨"10.0.0.2", 8080, false⟩]⟩]
+#guard (httpUpstreams exE).map (fun n => (n.name, Resolver.configServers n)) ==
+  [("app_web_80", ["10.0.0.1:8080", "10.0.0.2:8080"]),
+   ("invalid-backend-ref", ["unix:/var/run/nginx/nginx-500-server.sock"])]
+-- an irrelevant slice (Service `idle` is not referenced; `backend/svc` is referenced but the slice is in another namespace)
+#guard upstreamsOf { exE with slices := exSlice "app" "idle" ["10.0.9.8"] (some true) :: exE.slices } == upstreamsOf exE
+#guard upstreamsOf { exE with slices := exSlice "app" "svc" ["10.0.9.8"] (some true) :: exE.slices } == upstreamsOf exE
+-- no ready endpoint left: the 503 placeholder
+#guard (httpUpstreams { exE with slices := [exSlice "app" "web" ["10.0.0.3"] (some false)] }).map
+    (fun n => (n.name, Resolver.configServers n)) ==
+  [("app_web_80", [Resolver.nginx503Server]), ("invalid-backend-ref", ["unix:/var/run/nginx/nginx-500-server.sock"])]
+
+/-- **Converse witness**: a slice of a Service that an attached route references DOES change `upstreamsOf`
+(so the hypothesis of `endpointslice_irrelevant_inert` cannot be dropped). -/
+theorem endpointslice_relevant_changes :
+    upstreamsOf { exE with slices := exSlice "app" "web" ["10.0.0.4"] (some true) :: exE.slices } ≠ upstreamsOf exE ∧
+    (upstreamsOf { exE with slices := exSlice "app" "web" ["10.0.0.4"] (some true) :: exE.slices }).map (·.eps.length) = [3] := by
+  decide
+
+end NGF.PipelineEndpoints
